@@ -215,3 +215,26 @@ def hir_fn_for(F, inst):
 def node_at(fn, sp):
     """HIR nodes of fn whose span equals sp"""
     return [x for x in H.walk(fn["body"]) if x.get("sp") == sp]
+
+
+def _sp(sp):
+    m = re.match(r"^(.*):(\d+):(\d+)-(\d+):(\d+)$", sp or "")
+    if not m:
+        return None
+    return m.group(1), (int(m.group(2)), int(m.group(3))), (int(m.group(4)), int(m.group(5)))
+
+
+def nodes_covering(fn, sp, kinds):
+    """HIR nodes of the given kinds whose span contains sp, innermost first"""
+    want = _sp(sp)
+    if want is None:
+        return []
+    out = []
+    for x in H.walk(fn["body"]):
+        if x.get("k") not in kinds:
+            continue
+        have = _sp(x.get("sp"))
+        if have and have[0] == want[0] and have[1] <= want[1] and want[2] <= have[2]:
+            out.append(((have[2][0] - have[1][0], have[2][1] - have[1][1]), x))
+    out.sort(key=lambda t: t[0])
+    return [x for _, x in out]
